@@ -280,7 +280,7 @@ IN_VIVO = ("two_delays_same_pair", "two_delays_same_pair_rev", "two_trigger_dela
            "two_trigger_delays_rev", "two_delays_shift2_pair", "two_delays_shift2_pair_rev",
            "two_paths_shift2", "E_chain_shift_last_W", "sibling_groups", "nested_groups",
            "weak_and_shift_init", "loop_weak_then_plain", "group_reentry", "nested_detour", "two_trigger_delays_upstream",
-           "two_trigger_delays_upstream_rev",
+           "two_trigger_delays_upstream_rev", "shift_weak_direct_and_relayed",
            "weak_direct_plus_plain_path")
 
 
@@ -288,7 +288,7 @@ def in_vivo(rep):
     """The delays accumulated by the scenario layer (minimum over the connections of a pair,
     minimum over paths) are exercised where they are used: scenarios with several connections
     of different delay between one pair / several paths are explored (all schedules) and the
-    C01 / C05 / C07 monitors judge them against the reference delays; a violation there means
+    C01 / C02 / C05 / C07 monitors judge them against the reference delays; a violation there means
     that delays were compared or combined inconsistently."""
     from . import sched, scenarios
     jobs = [j for j in sched.quick_jobs(env.seed()) if j["name"] in IN_VIVO and j["budget"] == 0]
@@ -300,7 +300,7 @@ def in_vivo(rep):
         n["execs"] += r["execs"]
         n["states"] += r["states"]
         for v in r["viols"]:
-            if v["prop"] in ("C01", "C05", "C07") and v.get("cls") is None:
+            if v["prop"] in ("C01", "C02", "C05", "C07") and v.get("cls") is None:
                 rep.report(dict(prop="C08", kind="accumulated-delay-wrong-in-vivo", cls=None,
                                 msg=f"{job['name']} [{sched._cfgs(job['cfg'])}]: "
                                     f"[{v['prop']}/{v['kind']}] {v['msg']}"),
